@@ -97,6 +97,12 @@ func checkC18(c *Case, r *Rec) error {
 		}
 		return nil
 	}
+	if c.Kind == "edge-junk" {
+		if h(v) && !cssWords[asciiLower(v)] && !cssNumber.MatchString(v) {
+			return violation("", "C18: the default handler for %q accepts %q: an accepted word with another character glued to its edge", prop, v)
+		}
+		return nil
+	}
 	if c.Kind == "function-only" {
 		if h(v) && !functionList.MatchString(v) {
 			return violation("", "C18: the default handler for %q accepts %q, which is neither a keyword of that property nor a list of function calls", prop, v)
@@ -404,6 +410,10 @@ func fixedC18(r *Rec, tier string, shard, nshards int) []*Case {
 	fails = append(fails, cf...)
 	totalCalls += ccalls
 	r.ClassN("non_ascii_case_calls", ccalls)
+	jf, jcalls := edgeJunkStage(props, free)
+	fails = append(fails, jf...)
+	totalCalls += jcalls
+	r.ClassN("edge_junk_calls", jcalls)
 	nif, nicalls := numberInsideStage(props)
 	fails = append(fails, nif...)
 	totalCalls += nicalls
